@@ -62,6 +62,8 @@ def sample_ports(rnd):
 
 def search(payload):
     what = payload.get('what', 'first')
+    if what == 'roundtrip':
+        return round_trip({'seed': payload.get('seed', 0), 'n': 300})
     rnd = random.Random(payload.get('seed', 0))
     tried = 0
     for _ in range(1500):
